@@ -152,7 +152,7 @@ func sameMem(a, b *State) bool {
 	for k, v := range a.heap {
 		if bv, ok := b.heap[k]; ok && bv != v {
 			return false
-		} else if !ok && !strings.HasSuffix(strings.Trim(v, "|"), "@"+a.ghost["$epoch"]) {
+		} else if !ok && !strings.HasSuffix(strings.Trim(v, "|"), "@"+a.ghost["$epoch"]) && !strings.HasSuffix(strings.Trim(v, "|"), "@0") {
 			return false
 		}
 	}
@@ -211,6 +211,7 @@ func resultVal(sig *types.Signature, rets []*Val) *Val {
 
 func (e *Engine) callFunc(st *State, instr ssa.Instruction, fn *ssa.Function, args, bind []*Val, call *ssa.CallCommon, k func(st *State, res *Val)) {
 	name := fn.String()
+	e.callSiteReqs(st, instr, fn, args)
 	if c := e.contractFor(fn); c != nil && !c.Inline {
 		e.callContract(st, instr, fn, c, args, k)
 		return
@@ -403,7 +404,11 @@ func fnParamName(v ssa.Value) string {
 func (e *Engine) callContract(st *State, instr ssa.Instruction, fn *ssa.Function, c *Contract, args []*Val, k func(st *State, res *Val)) {
 	short := fn.Name()
 	if fn.Signature.Recv() != nil {
-		short = fn.RelString(fn.Pkg.Pkg)
+		if fn.Pkg != nil {
+			short = fn.RelString(fn.Pkg.Pkg)
+		} else if o := fn.Origin(); o != nil && o.Pkg != nil {
+			short = stripTypeArgs(o.RelString(o.Pkg.Pkg))
+		}
 	}
 	env := &Env{e: e, st: st, sink: st, names: map[string]*Val{}, callArg: true}
 	if fn.Pkg != nil {
